@@ -543,7 +543,9 @@ COMMIT_FRAMES = ('commit', 'SessionCache.flush_and_commit', 'Database.commit', '
 def attribute(ev):
     """annotate a DB-API call with the innermost write entry point on the stack, the enclosing SessionCache.flush call (id)
     and whether a commit is in progress"""
-    if ev['i'] is None or ev['call'] not in ('execute', 'executemany'): return
+    if ev['i'] is None: return
+    ev['step'], ev['caught'] = STEP[0], STEP[1]          # every DB-API call knows its program step (connect, cursor, commit ... too)
+    if ev['call'] not in ('execute', 'executemany'): return
     f = sys._getframe(1)
     chain = []
     while f is not None:
